@@ -31,7 +31,7 @@ def cases_for(res, rng):
     for i in range(nrand):
         K = random_structure(rng, 5)
         cases.append((K, ('A', F.rand_ltl_path(rng, rng.choice([2, 3, 3, 4]), max_temporal=rng.choice([2, 3, 4]))),
-                      ('text', 'obj', 'short', 'obj')[i % 4]))
+                      ('text', 'obj', 'short', 'dag')[i % 4]))
     # scale: more states with few temporal operators; more temporal operators / wide n-ary on tiny structures
     for i in range(150 if quick else 1500):
         K = big_structure(rng, 7, 9)
